@@ -53,7 +53,7 @@ type slice struct {
 
 func (s *slice) ReadAtOffset(off int64, p []byte) (n int, err error) {
 	start := s.off + off
-	l := s.len - s.pos
+	l := s.len - off
 	if l <= 0 {
 		return 0, io.EOF
 	}
@@ -165,6 +165,6 @@ func (s *slice) Size() int64 {
 	if s.len == unlimited {
 		return s.buf.Size() - s.off
 	} else {
-		return s.len - s.off
+		return s.len
 	}
 }
